@@ -42,6 +42,10 @@ type funcSpec struct {
 	opaque map[string]string
 	// errInts: error values record the integer arguments of their fmt.Errorf call (line numbers)
 	errInts bool
+	// allowWrap: fmt.Errorf with %w is translated like any other site (the wrapped cause is dropped)
+	allowWrap bool
+	// errCtors: module functions that only build an error from a format (treated like fmt.Errorf), as "pkg.name"
+	errCtors []string
 }
 
 // The functions translated. Order matters only for readability: dependencies are emitted first automatically.
@@ -64,6 +68,8 @@ var funcSpecs = []funcSpec{
 	{rel: "plugin", name: "EncodeRecipient"},
 	{rel: "plugin", name: "ParseRecipient"},
 	{rel: "", name: "slicesEqual"},
+	{rel: "internal/format", name: "(*StanzaReader).ReadStanza", abstract: []string{"format.DecodeString"}, allowWrap: true, errCtors: []string{"format.errorf"},
+		fuel: map[int]string{2: "(Go.len (r).r).toNat + 1"}},
 	{rel: "", name: "multiUnwrap", abstract: []string{"errors.Is"}},
 	{rel: "", name: "(*ScryptIdentity).unwrap", abstract: []string{"format.DecodeString", "scrypt.Key", "age.aeadDecrypt"}},
 	{rel: "", name: "(*ScryptIdentity).Unwrap", abstract: []string{"errors.Is"}},
@@ -87,6 +93,8 @@ var stdlibPure = map[string]string{
 	"strings.TrimPrefix":   "Go.strings_TrimPrefix",
 	"strings.TrimSuffix":   "Go.strings_TrimSuffix",
 	"strings.LastIndex":    "Go.strings_LastIndex",
+	"bytes.HasPrefix":      "Go.strings_HasPrefix",
+	"bytes.Equal":          "Go.bytes_Equal",
 }
 
 type unsupported struct{ msg string }
@@ -123,6 +131,7 @@ type fctx struct {
 	// loop context (nil at function level)
 	lc           *loopCtx
 	abstractUsed []*types.Func
+	deferred     []ast.Stmt // bodies of `defer func() { … }()` statements passed so far (function level only)
 }
 
 type loopCtx struct {
@@ -142,7 +151,7 @@ var leanReserved = map[string]bool{"end": true, "at": true, "from": true, "do": 
 	"theorem": true, "instance": true, "structure": true, "class": true, "namespace": true, "section": true, "import": true, "return": true,
 	"for": true, "mut": true, "Type": true, "Prop": true, "Sort": true, "fuel__": true, "rest__": true, "some": true, "none": true,
 	"true": true, "false": true, "pure": true, "throw": true, "id": true, "max": true, "min": true, "not": true, "and": true, "or": true,
-	"using": true, "calc": true, "set": true, "len": true, "idx": true, "mod": true, "bits": false}
+	"using": true, "calc": true, "prefix": true, "infix": true, "postfix": true, "notation": true, "macro": true, "syntax": true, "local": true, "private": true, "protected": true, "partial": true, "unsafe": true, "mutual": true, "universe": true, "variable": true, "example": true, "abbrev": true, "inductive": true, "deriving": true, "extends": true, "export": true, "attribute": true, "suffices": true, "obtain": true, "at_": false, "nomatch": true, "nofun": true, "termination_by": true, "decreasing_by": true, "opaque": true, "axiom": true, "noncomputable": true, "omit": true, "include": true, "then_": false, "try": true, "catch": true, "finally": true, "unless": true, "break": true, "continue": true, "set": true, "len": true, "idx": true, "mod": true, "bits": false}
 
 func (c *fctx) nameOf(v types.Object) string {
 	if n, ok := c.names[v]; ok {
@@ -190,7 +199,7 @@ func leanTypeOf(t types.Type) (string, bool) {
 				return v, true
 			}
 			switch nt.Obj().Pkg().Path() + "." + nt.Obj().Name() {
-			case "io.Reader", "bufio.Scanner":
+			case "io.Reader", "bufio.Scanner", "bufio.Reader":
 				// a source of bytes is the bytes it delivers before a clean end (read errors of the source are not modelled);
 				// a Scanner is the input it has not tokenised yet
 				return "(List UInt8)", true
@@ -292,6 +301,26 @@ func kindOf(t types.Type) string {
 func (c *fctx) zero(n ast.Node, t types.Type) string {
 	if nt, ok := t.(*types.Named); ok && nt.Obj().Pkg() == nil && nt.Obj().Name() == "error" {
 		return "none"
+	}
+	{
+		bt := t
+		if p, ok := bt.(*types.Pointer); ok {
+			bt = p.Elem()
+		}
+		if nt, ok := bt.(*types.Named); ok {
+			if st, isStruct := nt.Underlying().(*types.Struct); isStruct {
+				if name, ok := c.t.structType(nt); ok {
+					var fs []string
+					for i := 0; i < st.NumFields(); i++ {
+						fs = append(fs, fieldName(st.Field(i).Name())+" := "+c.zero(n, st.Field(i).Type()))
+					}
+					return "({ " + strings.Join(fs, ", ") + " } : " + name + ")"
+				}
+			}
+			if s, ok := leanTypeOf(t); ok && s == "(List UInt8)" {
+				return "[]"
+			}
+		}
 	}
 	switch u := t.Underlying().(type) {
 	case *types.Basic:
@@ -431,7 +460,7 @@ func (c *fctx) partial(e ast.Expr) bool {
 				if _, ok := stdlibPure[f.Pkg().Name()+"."+f.Name()]; ok {
 					return true
 				}
-				if (f.Pkg().Path() == "fmt" && f.Name() == "Errorf") || (f.Pkg().Path() == "errors" && f.Name() == "New") {
+				if (f.Pkg().Path() == "fmt" && f.Name() == "Errorf") || (f.Pkg().Path() == "errors" && f.Name() == "New") || c.isErrCtor(f) {
 					return true
 				}
 			}
@@ -456,6 +485,11 @@ func (c *fctx) exprAs(e ast.Expr, want types.Type) string {
 		if _, isNil := c.info().Uses[id].(*types.Nil); isNil && want != nil {
 			if _, isSlice := want.Underlying().(*types.Slice); isSlice {
 				return "[]"
+			}
+			if p, isPtr := want.Underlying().(*types.Pointer); isPtr {
+				if _, isStruct := p.Elem().Underlying().(*types.Struct); isStruct {
+					return c.zero(e, want) // a nil *T result is never looked at by the callers of translated code when err != nil
+				}
 			}
 			return "none"
 		}
@@ -499,6 +533,13 @@ func (c *fctx) expr(e ast.Expr) string {
 		}
 		c.fail(e, "dereference of something other than a *[N]T parameter")
 	case *ast.UnaryExpr:
+		if x.Op == token.AND {
+			if cl, ok := ast.Unparen(x.X).(*ast.CompositeLit); ok && len(cl.Elts) == 0 {
+				if _, isStruct := c.typeOf(cl).Underlying().(*types.Struct); isStruct {
+					return c.zero(e, c.typeOf(cl))
+				}
+			}
+		}
 		switch x.Op {
 		case token.NOT:
 			return "(!" + c.expr(x.X) + ")"
@@ -720,7 +761,7 @@ func (c *fctx) call(x *ast.CallExpr) string {
 				}
 				c.fail(x, "strings.Split with a separator that is not a one-byte constant")
 			}
-			if (o.Pkg().Path() == "fmt" && o.Name() == "Errorf") || (o.Pkg().Path() == "errors" && o.Name() == "New") {
+			if (o.Pkg().Path() == "fmt" && o.Name() == "Errorf") || (o.Pkg().Path() == "errors" && o.Name() == "New") || c.isErrCtor(o) {
 				for _, a := range x.Args {
 					if c.partial(a) {
 						c.fail(x, "argument of an error constructor can fault")
@@ -729,7 +770,7 @@ func (c *fctx) call(x *ast.CallExpr) string {
 				k := c.errN
 				c.errN++
 				msg, _ := c.fi.Pkg.constString(x.Args[0])
-				if strings.Contains(msg, "%w") {
+				if strings.Contains(msg, "%w") && !(c.spec != nil && c.spec.allowWrap) {
 					c.fail(x, "an error that wraps another (%%w): wrapping is not modelled")
 				}
 				c.sites = append(c.sites, fmt.Sprintf("error site %d (line %d): %q", k, c.t.pr.line(x.Pos()), msg))
@@ -852,6 +893,18 @@ func isScanner(t types.Type) bool {
 	}
 	nt, ok := t.(*types.Named)
 	return ok && nt.Obj().Pkg() != nil && nt.Obj().Pkg().Path() == "bufio" && nt.Obj().Name() == "Scanner"
+}
+
+func (c *fctx) isErrCtor(o *types.Func) bool {
+	if c.spec == nil || o.Pkg() == nil {
+		return false
+	}
+	for _, a := range c.spec.errCtors {
+		if a == o.Pkg().Name()+"."+o.Name() {
+			return true
+		}
+	}
+	return false
 }
 
 func (c *fctx) isAbstract(o *types.Func) bool {
@@ -1105,6 +1158,12 @@ func (c *fctx) assignedIn(n ast.Node) map[*types.Var]bool {
 			case *ast.StarExpr:
 				e = r.X
 				continue
+			case *ast.SelectorExpr:
+				if sel := c.info().Selections[r]; sel != nil && sel.Kind() == types.FieldVal {
+					e = r.X
+					continue
+				}
+				return nil
 			case *ast.Ident:
 				if v, ok := c.info().Uses[r].(*types.Var); ok {
 					return v
@@ -1144,11 +1203,26 @@ func (c *fctx) assignedIn(n ast.Node) map[*types.Var]bool {
 						m[v] = true
 					}
 				}
+				if sn := c.info().Selections[sel]; sn != nil && isBufioReader(sn.Recv()) && sn.Obj().Name() != "Peek" {
+					if v := root(sel.X); v != nil {
+						m[v] = true
+					}
+				}
 			}
+		case *ast.DeferStmt:
+			// the deferred closure's assignments happen in this function
 		}
 		return true
 	})
 	return m
+}
+
+func isBufioReader(t types.Type) bool {
+	if p, ok := t.(*types.Pointer); ok {
+		t = p.Elem()
+	}
+	nt, ok := t.(*types.Named)
+	return ok && nt.Obj().Pkg() != nil && nt.Obj().Pkg().Path() == "bufio" && nt.Obj().Name() == "Reader"
 }
 
 // usedIn collects local variables (of this function) referenced inside n.
@@ -1274,6 +1348,19 @@ func (c *fctx) assignTo(e *emitter, ind int, lhs ast.Expr, val string, define bo
 			}
 		}
 		c.fail(lhs, "assignment through a pointer")
+	case *ast.SelectorExpr:
+		// a field of a struct held in a local variable, a parameter or the receiver: the variable is updated
+		if sel := c.info().Selections[l]; sel != nil && sel.Kind() == types.FieldVal && len(sel.Index()) == 1 {
+			if id, ok := ast.Unparen(l.X).(*ast.Ident); ok {
+				if v, ok := c.info().Uses[id].(*types.Var); ok && v.Parent() != c.fi.Pkg.Types.Scope() {
+					if _, ok := leanTypeOf(v.Type()); ok {
+						e.add(ind, fmt.Sprintf("%s := { %s with %s := %s }", c.nameOf(v), c.nameOf(v), fieldName(sel.Obj().Name()), val))
+						return
+					}
+				}
+			}
+		}
+		c.fail(lhs, "assignment to %s", c.t.pr.text(c.fi.Pkg, lhs))
 	default:
 		c.fail(lhs, "assignment to %T", lhs)
 	}
@@ -1402,7 +1489,46 @@ func (c *fctx) stmt(e *emitter, ind int, s ast.Stmt) {
 			}
 		}
 		e.add(ind, "let _ := "+c.expr(call))
+	case *ast.DeferStmt:
+		lit, ok := st.Call.Fun.(*ast.FuncLit)
+		if !ok || len(st.Call.Args) != 0 || c.lc != nil || lit.Type.Params.NumFields() != 0 {
+			c.fail(s, "defer of something other than a parameterless closure at function level")
+		}
+		for _, r := range c.results {
+			if r.Name() == "" || r.Name() == "_" {
+				c.fail(s, "defer in a function without named results")
+			}
+		}
+		c.deferred = append(c.deferred, lit.Body.List...)
 	case *ast.ReturnStmt:
+		if len(c.deferred) > 0 {
+			// set the named results, run the deferred statements (they may read and change them), return
+			if len(st.Results) == len(c.results) {
+				var tmps []string
+				for i, r := range st.Results {
+					t := c.tmp()
+					e.add(ind, "let "+t+" := "+c.exprAs(r, c.results[i].Type()))
+					tmps = append(tmps, t)
+				}
+				for i, r := range c.results {
+					e.add(ind, c.nameOf(r)+" := "+tmps[i])
+				}
+			} else if len(st.Results) != 0 {
+				c.fail(s, "return shape in a function with a defer")
+			}
+			saved := c.deferred
+			c.deferred = nil
+			for i := len(saved) - 1; i >= 0; i-- {
+				c.stmt(e, ind, saved[i])
+			}
+			c.deferred = saved
+			var vals []string
+			for _, r := range c.results {
+				vals = append(vals, c.nameOf(r))
+			}
+			c.emitReturn(e, ind, c.retExpr(vals))
+			return
+		}
 		var vals []string
 		if len(st.Results) == 0 {
 			for _, r := range c.results {
@@ -1503,6 +1629,30 @@ func (c *fctx) assign(e *emitter, ind int, st *ast.AssignStmt) {
 	}
 	if len(st.Rhs) != 1 {
 		c.fail(st, "assignment shape")
+	}
+	// a read from a *bufio.Reader: the value(s) and the reader's new state
+	if call, ok := ast.Unparen(st.Rhs[0]).(*ast.CallExpr); ok && len(st.Lhs) == 2 {
+		if sel, ok := ast.Unparen(call.Fun).(*ast.SelectorExpr); ok {
+			if sn := c.info().Selections[sel]; sn != nil && isBufioReader(sn.Recv()) {
+				t := c.tmp()
+				switch sn.Obj().Name() {
+				case "ReadBytes", "ReadString":
+					e.add(ind, fmt.Sprintf("let %s := Go.bufio_ReadBytes %s %s", t, c.expr(sel.X), c.expr(call.Args[0])))
+					c.assignTo(e, ind, sel.X, t+".2.2", false)
+				case "Peek":
+					e.add(ind, fmt.Sprintf("let %s := Go.bufio_Peek %s %s", t, c.expr(sel.X), c.asInt(call.Args[0])))
+				default:
+					c.fail(st, "bufio.Reader.%s", sn.Obj().Name())
+				}
+				c.assignTo(e, ind, st.Lhs[0], t+".1", define)
+				if sn.Obj().Name() == "Peek" {
+					c.assignTo(e, ind, st.Lhs[1], t+".2", define)
+				} else {
+					c.assignTo(e, ind, st.Lhs[1], t+".2.1", define)
+				}
+				return
+			}
+		}
 	}
 	t := c.tmp()
 	e.add(ind, "let "+t+" := "+c.expr(st.Rhs[0]))
@@ -1722,6 +1872,43 @@ func (c *fctx) loop(e *emitter, ind int, s ast.Stmt) {
 			c.fail(s, "loop variable %s is assigned in the body", v.Name())
 		}
 	}
+	// a `return` inside the loop runs the deferred statements there: the named results and whatever the
+	// deferred statements touch must flow through the loop
+	if len(c.deferred) > 0 && containsReturn(body) {
+		need := map[*types.Var]bool{}
+		for _, r := range c.results {
+			need[r] = true
+		}
+		for _, d := range c.deferred {
+			for v := range c.assignedIn(d) {
+				need[v] = true
+			}
+			for _, v := range c.usedIn(d) {
+				if !need[v] && !seen[v] {
+					seen[v] = true
+					ro = append(ro, v)
+				}
+			}
+		}
+		for v := range need {
+			isMut := false
+			for _, m := range muts {
+				isMut = isMut || m == v
+			}
+			if isMut {
+				continue
+			}
+			var ro2 []*types.Var
+			for _, x := range ro {
+				if x != v {
+					ro2 = append(ro2, x)
+				}
+			}
+			ro = ro2
+			seen[v] = true
+			muts = append(muts, v)
+		}
+	}
 	// in-out parameters must flow through the loop when it can return
 	for _, io := range c.inouts {
 		if !seen[io] {
@@ -1843,6 +2030,20 @@ func (c *fctx) loop(e *emitter, ind int, s ast.Stmt) {
 	}
 }
 
+func containsReturn(n ast.Node) bool {
+	found := false
+	ast.Inspect(n, func(n ast.Node) bool {
+		switch n.(type) {
+		case *ast.ReturnStmt:
+			found = true
+		case *ast.FuncLit:
+			return false
+		}
+		return !found
+	})
+	return found
+}
+
 // pats0 replaces variable patterns by wildcards in the fuel-exhausted equation
 func pats0(p string) string {
 	parts := strings.Split(p, ", ")
@@ -1910,10 +2111,15 @@ func (t *ftr) translate(fi *FuncInfo, from *fctx, at ast.Node) string {
 	var shadow []string
 	asg := c.assignedIn(fi.Decl.Body)
 	if rv := sig.Recv(); rv != nil {
-		if asg[rv] {
-			c.fail(fi.Decl, "the receiver is assigned")
-		}
 		params = append(params, fmt.Sprintf("(%s : %s)", c.nameOf(rv), c.leanType(fi.Decl, rv.Type())))
+		if asg[rv] {
+			// the receiver's fields are assigned: it is handed back with the results
+			if _, isPtr := rv.Type().Underlying().(*types.Pointer); !isPtr {
+				c.fail(fi.Decl, "a value receiver is assigned")
+			}
+			c.inouts = append(c.inouts, rv)
+			shadow = append(shadow, fmt.Sprintf("let mut %s := %s", c.nameOf(rv), c.nameOf(rv)))
+		}
 	}
 	for i := 0; i < sig.Params().Len(); i++ {
 		p := sig.Params().At(i)
@@ -1923,7 +2129,7 @@ func (t *ftr) translate(fi *FuncInfo, from *fctx, at ast.Node) string {
 			if !isArr && !isStruct {
 				c.fail(fi.Decl, "pointer parameter %s", p.Name())
 			}
-			if isArr && asg[p] {
+			if (isArr || isStruct) && asg[p] {
 				c.inouts = append(c.inouts, p)
 			}
 		}
@@ -1956,6 +2162,11 @@ func (t *ftr) translate(fi *FuncInfo, from *fctx, at ast.Node) string {
 	// falling off the end of a function without results
 	if sig.Results().Len() == 0 {
 		e.add(1, "return "+c.retExpr(nil))
+	} else if n := len(fi.Decl.Body.List); n > 0 {
+		if fs, ok := fi.Decl.Body.List[n-1].(*ast.ForStmt); ok && fs.Cond == nil {
+			// the body ends in a `for { … }` that can only be left by `return`: nothing follows it in Go
+			e.add(1, "throw Go.Fault.fuel")
+		}
 	}
 	for _, l := range c.loops {
 		t.out.WriteString(l)
